@@ -3,6 +3,7 @@
 from .expr import *
 from .values import *
 from .oracles import queue_core
+from .engine import stack_slot
 
 def blocked_at(w, fn_suffix, native_suffix, phase=None):
     """guards of all thread states stopped at visible call `native_suffix` inside function `fn_suffix`"""
@@ -19,13 +20,35 @@ def blocked_at(w, fn_suffix, native_suffix, phase=None):
     return Or(*out)
 
 def p_sync_background_sleeps_on_claimable_queue(w):
-    """a sync caller sleeps in sync_background's condvar wait although its queue is Idle/Pending, i.e. claimable
-    (lost or never-sent steal notification; nobody else will run the queue)"""
-    waiting = blocked_at(w, '::sync_background', 'Condvar::wait', phase=1)
-    claimable = FALSE
-    for q in range(w.scen.get('queues', 1)):
-        st, ln, lk = queue_core(w, q)
-        claimable = Or(claimable, And(Or(Eq(st, ZERO), Eq(st, ONE)), Ugt(ln, ZERO)))
-    return And(waiting, claimable)
+    """D3: a sync caller sleeps in sync_background's condvar wait although its queue is Idle/Pending and non-empty, i.e. claimable,
+    and every reschedule_queue of that queue (the only place waiters are told to steal it) ran BEFORE the caller went to sleep: by the
+    finishing owner between the caller's strategy decision and its wait, or by the caller's own need_reschedule.  The steal
+    notification is not sticky and sync_background never tries claim_pending_queue before its first wait.
+    A caller that was ALREADY asleep when reschedule_queue ran for its queue and still sleeps (not registered, skipped by the
+    notification loop, ...) is a different defect and does not match: the unchanged code notifies every live registered waiter."""
+    m = w.m
+    out = []
+    for th in m.threads:
+        for k, st in th.states.items():
+            if k[2] != 1: continue
+            cp, blk, ph = k
+            fn = m.fn_of(cp)
+            if not fn.name.endswith('::sync_background'): continue
+            t = fn.blocks[blk].term
+            if t[0] != 'call' or 'Condvar::wait' not in t[2]: continue
+            m.cur = th; m.st = st
+            qref = m.load(Ref.to(stack_slot(th.tid, st.cp, 2)), st.g)          # sync_background(&self, queue: &Arc<JobQueue>, ..)
+            arc = m.load(qref, st.g) if isinstance(qref, Ref) else None
+            if not isinstance(arc, St) or not isinstance(arc.f.get('p'), Ref): continue
+            slept = getattr(th, 'sleep_at', ZERO)
+            for x, c, p_ in arc.f['p'].tg:
+                jq = m.load(Ref([(TRUE, c, p_ + (('f', 'data'),))]), TRUE)
+                if not isinstance(jq, St): continue
+                core = jq.f[0].f['data']
+                stt, ln = core.f[1].disc, core.f[0].f['len']
+                claimable = And(Or(Eq(stt, ZERO), Eq(stt, ONE)), Ugt(ln, ZERO))
+                late = Ugt(w.resched_at.get(c.id, ZERO), slept)      # a reschedule of this queue after the caller fell asleep
+                out.append(And(st.g, x, claimable, Not(late)))
+    return Or(*out)
 
 PREDICATES = {'sync_background_sleeps_on_claimable_queue': p_sync_background_sleeps_on_claimable_queue}
